@@ -76,6 +76,10 @@ def main():
             in_order_form = c.get("in_order_form")
             if kw.get("initial_state") is not None:
                 kw["initial_state"] = {L(k): v for k, v in kw["initial_state"]}
+            if c.get("init_list") and isinstance(kw.get("initial_state"), dict):
+                ks_ = sorted(kw["initial_state"], key=repr)
+                if all(isinstance(k_, int) and not isinstance(k_, bool) for k_ in ks_) and sorted(ks_) == list(range(len(ks_))):
+                    kw["initial_state"] = [kw["initial_state"][k_] for k_ in range(len(ks_))]     # indexed by LABEL, as a list
 
             def one():
                 captured.clear()
